@@ -18,17 +18,28 @@ package keeper
 //@ ensures C06/no-principal-no-interest: borrowed == 0 ==> result == 0
 //@ modifies nothing
 
+//@ func (Keeper).UpdateInterestAndGetDebt
+//@ modifies module:stablestake
+//@ inline-within-module
+//@ ensures C06/vault-eq: vaultGap(ctx) == old(vaultGap(ctx))
+
+//@ func (Keeper).GetDebt
+//@ modifies nothing
+//@ ensures C06/read-only: true
+
 //@ func (Keeper).UpdateInterestStacked
 //@ requires debt == k.getDebt(ctx, unbech32(debt.Address))
 //@ ensures C06/vault-eq: vaultGap(ctx) == old(vaultGap(ctx))
 
 // The borrower is never the vault's own module account (callers pass position addresses).
 //@ func (Keeper).Repay
+//@ modifies module:stablestake, bank[modAddr("stablestake")], bank[addr]
 //@ requires addr != modAddr("stablestake")
 //@ requires amount.Amount >= 0
 //@ ensures C06/vault-eq: err == nil ==> vaultGap(ctx) == old(vaultGap(ctx))
 
 //@ func (Keeper).Borrow
+//@ modifies module:stablestake, bank[modAddr("stablestake")], bank[addr]
 //@ ensures C07/lending-cap: err == nil ==> 10 * (old(k.GetParams(ctx).TotalValue) - old(bal(ctx, modAddr("stablestake"), k.GetDepositDenom(ctx))) + amount.Amount) <= 9 * old(k.GetParams(ctx).TotalValue)
 //@ requires addr != modAddr("stablestake")
 //@ requires amount.Amount >= 0
